@@ -297,7 +297,11 @@ class AudioIO(object):
     Updates internal status about open recording streams. Should be called
     only by the internal closing mechanism of children RecStream instances.
     """
-    self._recordings.remove(recst)
+    # Identity search: "==" on Stream instances is an elementwise operator
+    for idx, rec in enumerate(self._recordings):
+      if rec is recst:
+        del self._recordings[idx]
+        break
 
   def record(self, chunk_size = None,
                    dfmt = "f",
